@@ -7,6 +7,7 @@ from gen_nums import *
 
 
 def cmp_spec(a, s):
+    if s == "?": return True          # the spec does not fix this case
     fa, fs = a.split(" "), s.split(" ")
     if len(fa) != len(fs): return False
     for x, y in zip(fa, fs):
